@@ -36,6 +36,8 @@ macro_rules! rt_section {
         let g2 = ($r.input_frames_next(), $r.output_frames_next());
         rt::end();
         cover!(r1.is_ok() && r2.is_ok() && r4.is_ok() && r5.is_ok(), "calls succeeded");
+        cover!(matches!(&r1, Ok((_, n)) if *n > 0) || matches!(&r2, Ok((_, n)) if *n > 0) || matches!(&r4, Ok((_, n)) if *n > 0),
+            "a call inside the section produced frames");
         check!(g.5 == 2, "C09.harness_sanity[base]");
         forget((r1, r2, r4, r5, s0, s1, g2));
     }};
@@ -73,6 +75,8 @@ harnesses! {
     #[kani::stub(std::alloc::alloc_zeroed, crate::rt::k_alloc_zeroed)]
     #[kani::stub(std::alloc::dealloc, crate::rt::k_dealloc)]
     #[kani::stub(std::alloc::realloc, crate::rt::k_realloc)]
+    #[kani::stub(alloc::alloc::realloc_nonnull, crate::rt::k_realloc_nn)]
+    #[kani::stub(alloc::alloc::dealloc_nonnull, crate::rt::k_dealloc_nn)]
     fn c09_ffo_a(nd) {
         let mut r = FastFixedOut::<f64>::new(1.0, 2.0, PolynomialDegree::Linear, 2, 2).unwrap();
         rt_section!(A, nd, r, f64, 12, 2);
@@ -84,6 +88,8 @@ harnesses! {
     #[kani::stub(std::alloc::alloc_zeroed, crate::rt::k_alloc_zeroed)]
     #[kani::stub(std::alloc::dealloc, crate::rt::k_dealloc)]
     #[kani::stub(std::alloc::realloc, crate::rt::k_realloc)]
+    #[kani::stub(alloc::alloc::realloc_nonnull, crate::rt::k_realloc_nn)]
+    #[kani::stub(alloc::alloc::dealloc_nonnull, crate::rt::k_dealloc_nn)]
     fn c09_ffo_b(nd) {
         let mut r = FastFixedOut::<f64>::new(1.0, 2.0, PolynomialDegree::Linear, 2, 2).unwrap();
         rt_section!(B, nd, r, f64, 12, 2);
@@ -95,9 +101,12 @@ harnesses! {
     #[kani::stub(std::alloc::alloc_zeroed, crate::rt::k_alloc_zeroed)]
     #[kani::stub(std::alloc::dealloc, crate::rt::k_dealloc)]
     #[kani::stub(std::alloc::realloc, crate::rt::k_realloc)]
+    #[kani::stub(alloc::alloc::realloc_nonnull, crate::rt::k_realloc_nn)]
+    #[kani::stub(alloc::alloc::dealloc_nonnull, crate::rt::k_dealloc_nn)]
     fn c09_ffi_a(nd) {
-        let mut r = FastFixedIn::<f32>::new(1.0, 2.0, PolynomialDegree::Nearest, 2, 2).unwrap();
-        rt_section!(A, nd, r, f32, 2, 14);
+        // chunk 10: the first call already produces frames (the frame loop is inside the section)
+        let mut r = FastFixedIn::<f32>::new(1.0, 2.0, PolynomialDegree::Nearest, 10, 2).unwrap();
+        rt_section!(A, nd, r, f32, 10, 30);
         forget(r);
     }
 
@@ -106,6 +115,8 @@ harnesses! {
     #[kani::stub(std::alloc::alloc_zeroed, crate::rt::k_alloc_zeroed)]
     #[kani::stub(std::alloc::dealloc, crate::rt::k_dealloc)]
     #[kani::stub(std::alloc::realloc, crate::rt::k_realloc)]
+    #[kani::stub(alloc::alloc::realloc_nonnull, crate::rt::k_realloc_nn)]
+    #[kani::stub(alloc::alloc::dealloc_nonnull, crate::rt::k_dealloc_nn)]
     fn c09_ffi_b(nd) {
         let mut r = FastFixedIn::<f32>::new(1.0, 2.0, PolynomialDegree::Nearest, 2, 2).unwrap();
         rt_section!(B, nd, r, f32, 2, 14);
@@ -117,6 +128,8 @@ harnesses! {
     #[kani::stub(std::alloc::alloc_zeroed, crate::rt::k_alloc_zeroed)]
     #[kani::stub(std::alloc::dealloc, crate::rt::k_dealloc)]
     #[kani::stub(std::alloc::realloc, crate::rt::k_realloc)]
+    #[kani::stub(alloc::alloc::realloc_nonnull, crate::rt::k_realloc_nn)]
+    #[kani::stub(alloc::alloc::dealloc_nonnull, crate::rt::k_dealloc_nn)]
     fn c09_sfo_a(nd) {
         let mut r = SincFixedOut::<f64>::new_with_interpolator(1.0, 2.0, SincInterpolationType::Linear,
             probe::boxed64(2, 2), 3, 2).unwrap();
@@ -129,6 +142,8 @@ harnesses! {
     #[kani::stub(std::alloc::alloc_zeroed, crate::rt::k_alloc_zeroed)]
     #[kani::stub(std::alloc::dealloc, crate::rt::k_dealloc)]
     #[kani::stub(std::alloc::realloc, crate::rt::k_realloc)]
+    #[kani::stub(alloc::alloc::realloc_nonnull, crate::rt::k_realloc_nn)]
+    #[kani::stub(alloc::alloc::dealloc_nonnull, crate::rt::k_dealloc_nn)]
     fn c09_sfo_b(nd) {
         let mut r = SincFixedOut::<f64>::new_with_interpolator(1.0, 2.0, SincInterpolationType::Linear,
             probe::boxed64(2, 2), 2, 2).unwrap();
@@ -141,6 +156,8 @@ harnesses! {
     #[kani::stub(std::alloc::alloc_zeroed, crate::rt::k_alloc_zeroed)]
     #[kani::stub(std::alloc::dealloc, crate::rt::k_dealloc)]
     #[kani::stub(std::alloc::realloc, crate::rt::k_realloc)]
+    #[kani::stub(alloc::alloc::realloc_nonnull, crate::rt::k_realloc_nn)]
+    #[kani::stub(alloc::alloc::dealloc_nonnull, crate::rt::k_dealloc_nn)]
     fn c09_sfi_a(nd) {
         let mut r = SincFixedIn::<f32>::new_with_interpolator(1.0, 2.0, SincInterpolationType::Cubic,
             probe::boxed32(2, 2), 3, 2).unwrap();
@@ -153,6 +170,8 @@ harnesses! {
     #[kani::stub(std::alloc::alloc_zeroed, crate::rt::k_alloc_zeroed)]
     #[kani::stub(std::alloc::dealloc, crate::rt::k_dealloc)]
     #[kani::stub(std::alloc::realloc, crate::rt::k_realloc)]
+    #[kani::stub(alloc::alloc::realloc_nonnull, crate::rt::k_realloc_nn)]
+    #[kani::stub(alloc::alloc::dealloc_nonnull, crate::rt::k_dealloc_nn)]
     fn c09_sfi_b(nd) {
         let mut r = SincFixedIn::<f32>::new_with_interpolator(1.0, 2.0, SincInterpolationType::Cubic,
             probe::boxed32(2, 2), 2, 2).unwrap();
@@ -167,6 +186,8 @@ harnesses! {
     #[kani::stub(std::alloc::alloc_zeroed, crate::rt::k_alloc_zeroed)]
     #[kani::stub(std::alloc::dealloc, crate::rt::k_dealloc)]
     #[kani::stub(std::alloc::realloc, crate::rt::k_realloc)]
+    #[kani::stub(alloc::alloc::realloc_nonnull, crate::rt::k_realloc_nn)]
+    #[kani::stub(alloc::alloc::dealloc_nonnull, crate::rt::k_dealloc_nn)]
     #[kani::stub(rubato::CpuFeature::is_detected, crate::stubs::not_detected)]
     fn c09_sfo_real_kernel(nd) {
         let p = SincInterpolationParameters { sinc_len: 8, f_cutoff: 0.9, oversampling_factor: 2,
@@ -191,6 +212,8 @@ harnesses! {
     #[kani::stub(std::alloc::alloc_zeroed, crate::rt::k_alloc_zeroed)]
     #[kani::stub(std::alloc::dealloc, crate::rt::k_dealloc)]
     #[kani::stub(std::alloc::realloc, crate::rt::k_realloc)]
+    #[kani::stub(alloc::alloc::realloc_nonnull, crate::rt::k_realloc_nn)]
+    #[kani::stub(alloc::alloc::dealloc_nonnull, crate::rt::k_dealloc_nn)]
     #[kani::stub(realfft::RealFftPlanner::<f64>::new, crate::stubs::planner_new)]
     #[kani::stub(realfft::RealFftPlanner::<f64>::plan_fft_forward, crate::stubs::plan_fwd)]
     #[kani::stub(realfft::RealFftPlanner::<f64>::plan_fft_inverse, crate::stubs::plan_inv)]
@@ -206,6 +229,8 @@ harnesses! {
     #[kani::stub(std::alloc::alloc_zeroed, crate::rt::k_alloc_zeroed)]
     #[kani::stub(std::alloc::dealloc, crate::rt::k_dealloc)]
     #[kani::stub(std::alloc::realloc, crate::rt::k_realloc)]
+    #[kani::stub(alloc::alloc::realloc_nonnull, crate::rt::k_realloc_nn)]
+    #[kani::stub(alloc::alloc::dealloc_nonnull, crate::rt::k_dealloc_nn)]
     #[kani::stub(realfft::RealFftPlanner::<f64>::new, crate::stubs::planner_new)]
     #[kani::stub(realfft::RealFftPlanner::<f64>::plan_fft_forward, crate::stubs::plan_fwd)]
     #[kani::stub(realfft::RealFftPlanner::<f64>::plan_fft_inverse, crate::stubs::plan_inv)]
@@ -221,6 +246,8 @@ harnesses! {
     #[kani::stub(std::alloc::alloc_zeroed, crate::rt::k_alloc_zeroed)]
     #[kani::stub(std::alloc::dealloc, crate::rt::k_dealloc)]
     #[kani::stub(std::alloc::realloc, crate::rt::k_realloc)]
+    #[kani::stub(alloc::alloc::realloc_nonnull, crate::rt::k_realloc_nn)]
+    #[kani::stub(alloc::alloc::dealloc_nonnull, crate::rt::k_dealloc_nn)]
     #[kani::stub(realfft::RealFftPlanner::<f64>::new, crate::stubs::planner_new)]
     #[kani::stub(realfft::RealFftPlanner::<f64>::plan_fft_forward, crate::stubs::plan_fwd)]
     #[kani::stub(realfft::RealFftPlanner::<f64>::plan_fft_inverse, crate::stubs::plan_inv)]
@@ -236,6 +263,8 @@ harnesses! {
     #[kani::stub(std::alloc::alloc_zeroed, crate::rt::k_alloc_zeroed)]
     #[kani::stub(std::alloc::dealloc, crate::rt::k_dealloc)]
     #[kani::stub(std::alloc::realloc, crate::rt::k_realloc)]
+    #[kani::stub(alloc::alloc::realloc_nonnull, crate::rt::k_realloc_nn)]
+    #[kani::stub(alloc::alloc::dealloc_nonnull, crate::rt::k_dealloc_nn)]
     #[kani::stub(realfft::RealFftPlanner::<f64>::new, crate::stubs::planner_new)]
     #[kani::stub(realfft::RealFftPlanner::<f64>::plan_fft_forward, crate::stubs::plan_fwd)]
     #[kani::stub(realfft::RealFftPlanner::<f64>::plan_fft_inverse, crate::stubs::plan_inv)]
@@ -251,6 +280,8 @@ harnesses! {
     #[kani::stub(std::alloc::alloc_zeroed, crate::rt::k_alloc_zeroed)]
     #[kani::stub(std::alloc::dealloc, crate::rt::k_dealloc)]
     #[kani::stub(std::alloc::realloc, crate::rt::k_realloc)]
+    #[kani::stub(alloc::alloc::realloc_nonnull, crate::rt::k_realloc_nn)]
+    #[kani::stub(alloc::alloc::dealloc_nonnull, crate::rt::k_dealloc_nn)]
     #[kani::stub(realfft::RealFftPlanner::<f32>::new, crate::stubs::planner_new)]
     #[kani::stub(realfft::RealFftPlanner::<f32>::plan_fft_forward, crate::stubs::plan_fwd)]
     #[kani::stub(realfft::RealFftPlanner::<f32>::plan_fft_inverse, crate::stubs::plan_inv)]
@@ -266,6 +297,8 @@ harnesses! {
     #[kani::stub(std::alloc::alloc_zeroed, crate::rt::k_alloc_zeroed)]
     #[kani::stub(std::alloc::dealloc, crate::rt::k_dealloc)]
     #[kani::stub(std::alloc::realloc, crate::rt::k_realloc)]
+    #[kani::stub(alloc::alloc::realloc_nonnull, crate::rt::k_realloc_nn)]
+    #[kani::stub(alloc::alloc::dealloc_nonnull, crate::rt::k_dealloc_nn)]
     #[kani::stub(realfft::RealFftPlanner::<f32>::new, crate::stubs::planner_new)]
     #[kani::stub(realfft::RealFftPlanner::<f32>::plan_fft_forward, crate::stubs::plan_fwd)]
     #[kani::stub(realfft::RealFftPlanner::<f32>::plan_fft_inverse, crate::stubs::plan_inv)]
@@ -282,6 +315,40 @@ harnesses! {
     #[kani::stub(std::alloc::alloc_zeroed, crate::rt::k_alloc_zeroed)]
     #[kani::stub(std::alloc::dealloc, crate::rt::k_dealloc)]
     #[kani::stub(std::alloc::realloc, crate::rt::k_realloc)]
+    #[kani::stub(alloc::alloc::realloc_nonnull, crate::rt::k_realloc_nn)]
+    #[kani::stub(alloc::alloc::dealloc_nonnull, crate::rt::k_dealloc_nn)]
+    fn c09_dealloc_witness(nd) {
+        // vacuity witness (must FAIL): dropping a Vec inside the section is seen as a deallocation
+        let v: Vec<u64> = Vec::with_capacity(2);
+        rt::begin();
+        drop(v);
+        rt::end();
+        check!(true, "C09.harness_sanity[base]");
+    }
+    #[kani::unwind(12)]
+    #[kani::stub(std::alloc::alloc, crate::rt::k_alloc)]
+    #[kani::stub(std::alloc::alloc_zeroed, crate::rt::k_alloc_zeroed)]
+    #[kani::stub(std::alloc::dealloc, crate::rt::k_dealloc)]
+    #[kani::stub(std::alloc::realloc, crate::rt::k_realloc)]
+    #[kani::stub(alloc::alloc::realloc_nonnull, crate::rt::k_realloc_nn)]
+    #[kani::stub(alloc::alloc::dealloc_nonnull, crate::rt::k_dealloc_nn)]
+    fn c09_realloc_witness(nd) {
+        // vacuity witness (must FAIL): growing a Vec inside the section is seen as a reallocation
+        let mut v: Vec<u64> = Vec::with_capacity(2);
+        v.push(1);
+        rt::begin();
+        v.resize(9, 0);
+        rt::end();
+        check!(v.len() == 9, "C09.harness_sanity[base]");
+        forget(v);
+    }
+    #[kani::unwind(12)]
+    #[kani::stub(std::alloc::alloc, crate::rt::k_alloc)]
+    #[kani::stub(std::alloc::alloc_zeroed, crate::rt::k_alloc_zeroed)]
+    #[kani::stub(std::alloc::dealloc, crate::rt::k_dealloc)]
+    #[kani::stub(std::alloc::realloc, crate::rt::k_realloc)]
+    #[kani::stub(alloc::alloc::realloc_nonnull, crate::rt::k_realloc_nn)]
+    #[kani::stub(alloc::alloc::dealloc_nonnull, crate::rt::k_dealloc_nn)]
     fn c09_witness(nd) {
         let mut r = FastFixedOut::<f64>::new(1.0, 2.0, PolynomialDegree::Linear, 2, 1).unwrap();
         let x0 = [0.25f64; 12];
